@@ -924,8 +924,8 @@ def run(ctx):
                                 idx += 1
                                 if not ctx.mine(idx):
                                     continue
-                                if ctx.quick and not agen and idx % 3:
-                                    continue
+                                if ctx.quick and not agen and (idx // 6) % 3:
+                                    continue  # (thinned by grid point, not by index: the index is tied to raise_at x agen)
                                 sig, nt = asgi_scenario(ctx, cls, n_items, idl, sdl, td, 1.0, raise_at, agen)
                                 sigs.add((cls, sig))
                                 ctx.case_enum(nt)
